@@ -640,4 +640,91 @@ example : ∃ sys0 s : Sys, ∃ rs, ∃ ta tb : Tcb,
     · simp at key
   · simp at key
 
+/-- **From ANY reachable state to release, with a last message**: from every reachable state `s` of the closed system
+    without close (hypothesis of `c01_converges_full`: TCBs in SYN-SENT / SYN-RECEIVED / ESTABLISHED or the passive side
+    still without TCB, anything queued, parked, buffered, lost), the fair rounds of `c01_converges_full_bound` (≤ 15) end
+    `Done`; A's application then writes ANY message `d` (`|d| ≤ 65535·n`, H31) and calls `close()` AT ONCE, with all of
+    `d` still unsent: `closeLossFrontN n` (`close A`, a fair round of `2n + 2` phases) delivers all of `d` to B's
+    application before B sees the end of the stream (B CLOSE-WAIT, A FIN-WAIT-2), and when B's application closes
+    (`releaseTail`) both TCBs are deleted; B has been handed everything A ever submitted (the log of `s` followed by `d`),
+    A everything B submitted. -/
+theorem c03_converge_write_close_partial (ia ib : Seq) (ma mb : U16) (simultaneous : Bool) (sys0 s : Sys)
+    (rs : List Res) (hma : 100 ≤ ma.toNat) (hmb : 100 ≤ mb.toNat)
+    (h0 : Sys.run {} [.open .A ia ma, if simultaneous then .open .B ib mb else .listen .B ib mb] = .ok (sys0, rs))
+    (hrun : PlainRun sys0 s) (h31 : RoomH s) (d : List UInt8) (n : Nat) (hd : d.length ≤ 65535 * n)
+    (hroom : s.a.submitted.length + d.length + 2 < 2147483648) :
+    ∃ (rounds : List Nat) (s1 sw s2 s3 : Sys) (ta tb : Tcb) (r : Res),
+      (rounds.foldlM (fun st k => fairRound k st) s = .ok s1) ∧ Done s1 ta tb ∧ rounds.length ≤ 15 ∧
+      s1.step (.write .A d) = .ok (sw, r) ∧ closeLossFrontN n sw = .ok s2 ∧ releaseTail s2 = .ok s3 ∧ FinRun s s3 ∧
+      s2.b.delivered = s.a.submitted ++ d ∧
+      s3.a.tcb = none ∧ s3.b.tcb = none ∧ s3.a.submitted = s.a.submitted ++ d ∧ s3.b.submitted = s.b.submitted ∧
+      s3.b.delivered = s3.a.submitted ∧ s3.a.delivered = s3.b.submitted := by
+  have h50 : SPACE_FOR_HEADERS = 50 := rfl
+  obtain ⟨rounds, s1, ta, tb, hfold, p1, hdone, _, _, sa1, sb1, hlen, _, _, _⟩ :=
+    c01_converges_full_bound ia ib ma mb simultaneous sys0 s rs hma hmb h0 hrun h31
+  have hta : s1.a.tcb = some ta := hdone.steady.ha
+  have htb : s1.b.tcb = some tb := hdone.steady.hb
+  have ea := hdone.steady.a.st
+  have eb := hdone.steady.b.st
+  -- the write
+  have hacc : sendAccepts ta.state = true := by rw [ea]; rfl
+  have hw : s1.step (.write .A d) = .ok (s1.setSide .A
+      ⟨some (ta.send d), (s1.side .A).listen, (s1.side .A).submitted ++ d, (s1.side .A).delivered⟩, .ok) := by
+    have hsa : (s1.side .A).tcb = some ta := hta
+    simp only [Sys.step, Op.side, hsa, hacc, if_true]
+  generalize hsw : s1.setSide .A
+      ⟨some (ta.send d), (s1.side .A).listen, (s1.side .A).submitted ++ d, (s1.side .A).delivered⟩ = sw at hw
+  have hsend : ta.send d = ({ ta with outgoing.text := ta.outgoing.text ++ d } : Tcb) := by
+    unfold Tcb.send; rw [ea]
+  have wa : sw.a.tcb = some ({ ta with outgoing.text := ta.outgoing.text ++ d } : Tcb) := by rw [← hsw, hsend]; rfl
+  have wb : sw.b.tcb = some tb := by rw [← hsw]; exact htb
+  have wsa : sw.a.submitted = s.a.submitted ++ d := by
+    rw [← hsw]
+    show s1.a.submitted ++ d = _
+    rw [sa1]
+  have wsb : sw.b.submitted = s.b.submitted := by rw [← hsw]; exact sb1
+  have pw : PlainRun s1 sw := .step (op := .write .A d) (.refl _) trivial hw
+  have h31w : RoomH sw := by
+    unfold RoomH
+    rw [wsa, wsb, List.length_append]
+    exact ⟨by omega, h31.2⟩
+  -- B is idle
+  have hub : tb.snd.una = tb.snd.nxt := by
+    rcases hdone.steady.b.lastack with h | ⟨h, hl, _⟩
+    · exact h
+    · rw [hdone.a.one] at hl; cases hl
+  obtain ⟨s2, ta2, tb2, s3, e2, f2, _, _, _, _, _, _, d2, u2, e3, _, f3, na, nb, d3, d4, v1, v2⟩ :=
+    c03_close_after_loss_partial ia ib ma mb simultaneous sys0 sw rs hma hmb h0 ((hrun.trans p1).trans pw) h31w
+      ({ ta with outgoing.text := ta.outgoing.text ++ d } : Tcb) tb wa wb ea eb hdone.steady.a.buf hdone.steady.b.buf hub
+      hdone.b.text n (by
+        show (ta.outgoing.text ++ d).length ≤ _
+        rw [hdone.a.text]; exact hd)
+  exact ⟨rounds, s1, sw, s2, s3, ta, tb, .ok, hfold, hdone, hlen, hw, e2, e3,
+    ((FinRun.of_plain p1).trans (FinRun.of_plain pw)).trans f3, by rw [d2, u2, wsa], na, nb, v1.trans wsa, v2.trans wsb,
+    d3, d4⟩
+
+/-- the SYN was lost and A's application had already written [1, 2, 3] (A in SYN-SENT, B without TCB): five fair rounds end
+    `Done`; A writes [7, 8] and closes at once; B's application ends up with [1, 2, 3, 7, 8]; both TCBs are deleted -/
+def convergeWriteCloseCheck : Bool :=
+  match Sys.run {} [.open .A 1000 1500, .listen .B 5000 1500] with
+  | .ok (sys0, _) =>
+    (match plainRunB sys0 [.emit .A, .write .A [1, 2, 3]] with
+      | some s => s.b.tcb.isNone &&
+          (match runRounds s [1, 1, 1, 1, 4] with
+            | .ok s1 =>
+              (match s1.step (.write .A [7, 8]) with
+                | .ok (sw, _) =>
+                  (match closeLossFrontN 1 sw with
+                    | .ok s2 => s2.b.delivered == [1, 2, 3, 7, 8] &&
+                        (match releaseTail s2 with
+                          | .ok s3 => s3.a.tcb.isNone && s3.b.tcb.isNone && s3.b.delivered == [1, 2, 3, 7, 8]
+                          | .error _ => false)
+                    | .error _ => false)
+                | .error _ => false)
+            | .error _ => false)
+      | none => false)
+  | .error _ => false
+
+example : convergeWriteCloseCheck = true := by decide
+
 end Elvis.Tcp
